@@ -9,9 +9,18 @@
 use std::fmt::Debug;
 use std::sync::Arc;
 
+#[cfg(not(feature = "verif_hooks"))]
 use dashmap::mapref::entry::Entry::Occupied;
+#[cfg(feature = "verif_hooks")]
+use crate::verif::dashmap::Entry::Occupied;
+#[cfg(not(feature = "verif_hooks"))]
 use dashmap::mapref::entry::Entry::Vacant;
+#[cfg(feature = "verif_hooks")]
+use crate::verif::dashmap::Entry::Vacant;
+#[cfg(not(feature = "verif_hooks"))]
 use dashmap::DashMap;
+#[cfg(feature = "verif_hooks")]
+use crate::verif::dashmap::DashMap;
 use once_cell::sync::OnceCell;
 
 use crate::ActorCell;
@@ -132,4 +141,34 @@ pub fn monitor(actor: ActorCell) {
 /// * `actor` - The [ActorCell] representing who was receiving updates
 pub fn demonitor(actor: ActorId) {
     let _ = get_pid_listeners().remove(&actor);
+}
+
+/// verif: sorted plain-data view `(registered pids, lifecycle listeners)`
+#[cfg(feature = "verif_hooks")]
+pub fn verif_snapshot() -> (Vec<ActorId>, Vec<ActorId>) {
+    let mut pids = get_pid_registry()
+        .raw()
+        .iter()
+        .map(|kv| *kv.key())
+        .collect::<Vec<_>>();
+    pids.sort();
+    let mut listeners = get_pid_listeners()
+        .raw()
+        .iter()
+        .map(|kv| *kv.key())
+        .collect::<Vec<_>>();
+    listeners.sort();
+    (pids, listeners)
+}
+
+/// verif: clear both tables, reporting what was still in them
+#[cfg(feature = "verif_hooks")]
+pub(crate) fn verif_reset() -> Vec<String> {
+    let (pids, listeners) = verif_snapshot();
+    let mut residue = Vec::new();
+    residue.extend(pids.into_iter().map(|p| format!("pid {p}")));
+    residue.extend(listeners.into_iter().map(|p| format!("pid listener {p}")));
+    get_pid_registry().raw().clear();
+    get_pid_listeners().raw().clear();
+    residue
 }
